@@ -208,20 +208,35 @@ def usage_fallback(ctx, cfg, b, rule):
         ctx.ob(rule, 'run_subparser:usage-fallback-only-after-failure', ok2 and bool(outs),
                'when the inner parser succeeds run_subparser returns %s: the usage text (Stdout) never replaces a value' % sorted(outs), where=b.where(), cfg=cfg)
 
+def some_edges(b, field):
+    """(block, target) edges taken only when `self.<field>` is Some: the Some arm of a match / if-let on it, or the true
+    edge of `self.<field>.is_some()` (false edge of is_none())"""
+    out = []
+    for sw in switches(b):
+        if sw.kind == 'enum' and any(r.kind == 'param' and r.what == 'self' and r.path[:1] == [field] for r in provenance(b, sw.place, sw.discr_site[0], sw.discr_site[1])):
+            if sw.target('Some') is not None:
+                out.append((sw.b, sw.target('Some')))
+        elif sw.kind == 'bool':
+            for r in sw.roots:
+                if r.kind == 'call' and not r.path and r.call.is_(r'Option::<.*>::is_(some|none)$') and \
+                        any(q.kind == 'param' and q.what == 'self' and q.path[:1] == [field] for q in provenance(b, r.call.args[0], r.call.bb, 'term')):
+                    out.append((sw.b, sw.target(r.call.is_(r'is_some$'))))
+    return out
+
 def info(ctx, cfg, fs):
     b = ctx.look(fs.one(r'^<info::Info as Parser<info::ExtraParams>>::eval$'))
-    hp = [c for c in b.calls() if c.is_(r'^info::Info::mk_help_parser$')]
-    vp = [c for c in b.calls() if c.is_(r'^info::Info::mk_version_parser$')]
+    sites = info_parser_sites(b)
+    hp = sites['help']; vp = sites['version']
     evs = result_calls(b)
     def built_by(c):
-        rs = provenance(b, c.args[0], c.bb, 'term')
-        return {('help' if r.call.is_(r'mk_help_parser$') else 'version' if r.call.is_(r'mk_version_parser$') else '?') for r in rs if r.kind == 'call'}
+        rs = provenance(b, c.args[0], c.bb, 'term', through=None)
+        return {('help' if any(r.call.bb == x.bb for x in hp) else 'version' if any(r.call.bb == x.bb for x in vp) else '?') for r in rs if r.kind == 'call'}
     hev = [c for c in evs if built_by(c) == {'help'}]; vev = [c for c in evs if built_by(c) == {'version'}]
     ok = bool(hev) and bool(vev) and all(b.dominates(hev[0].bb, v.bb) for v in vev)
     ctx.ob('I.info', 'Info::eval:help-before-version', ok, 'the help flag is looked up before the version flag: %s' % ok, where=b.where(), cfg=cfg)
     # version lookup only under self.version Some
-    vsw = [sw for sw in switches(b) if sw.kind == 'enum' and any(r.kind == 'param' and r.path[:1] == ['version'] for r in provenance(b, sw.place, sw.discr_site[0], sw.discr_site[1]))]
-    ok = bool(vsw) and all(only_via_edge(b, vsw[0].b, vsw[0].target('Some'), v.bb) for v in vev) and bool(vev)
+    vsw = some_edges(b, 'version')
+    ok = bool(vsw) and all(any(only_via_edge(b, a_, t_, v.bb) for (a_, t_) in vsw) for v in vev) and bool(vev)
     ctx.ob('I.info', 'Info::eval:version-only-when-configured', ok, 'the version parser is evaluated only when a version was configured (otherwise --version stays an ordinary unknown flag): %s' % ok, where=b.where(), cfg=cfg)
     # Ok(Help) only via help Ok edge ; Ok(Version) only via version Ok edge
     good = True
@@ -237,9 +252,9 @@ def info(ctx, cfg, fs):
             good &= g
     ctx.ob('I.info', 'Info::eval:outcome-needs-flag', good, 'Help/Version is answered only on the success edge of the corresponding flag lookup: %s' % good, where=b.where(), cfg=cfg)
     m = ctx.look(fs.one(r'^<info::Info as Parser<info::ExtraParams>>::meta$'))
-    vm = [c for c in m.calls() if c.is_(r'^info::Info::mk_version_parser$')]
-    msw = [sw for sw in switches(m) if sw.kind == 'enum' and any(r.kind == 'param' and r.path[:1] == ['version'] for r in provenance(m, sw.place, sw.discr_site[0], sw.discr_site[1]))]
-    ok = bool(vm) and bool(msw) and all(only_via_edge(m, msw[0].b, msw[0].target('Some'), c.bb) for c in vm)
+    vm = info_parser_sites(m)['version']
+    msw = some_edges(m, 'version')
+    ok = bool(vm) and bool(msw) and all(any(only_via_edge(m, a_, t_, c.bb) for (a_, t_) in msw) for c in vm)
     ctx.ob('I.info', 'Info::meta:version-listed-iff-configured', ok, 'Info::meta lists the version flag under the same condition as Info::eval accepts it: %s' % ok, where=m.where(), cfg=cfg)
 
 def ambiguity(ctx, cfg, fs):
